@@ -57,6 +57,9 @@ def cd_lipschitz(prob, w=None, family="cd"):
     return L
 
 
+NULL_STEP = 1000.0
+
+
 def violation(prob, w, strategy="subdiff", family="cd"):
     """max over blocks of the first-order violation, joined with |d/db| when an intercept is fitted.
 
@@ -72,12 +75,14 @@ def violation(prob, w, strategy="subdiff", family="cd"):
         d = np.zeros(len(wv))
         sd = None
         for j in range(len(wv)):
-            if L is None or L[j] == 0:
+            if L is None:
                 if sd is None:
                     sd = P.subdiff_dist(pen, wv, g)
                 d[j] = sd[j]
                 continue
-            s = 1.0 / L[j]
+            # a null column has no curvature: the residual is taken with the large step the solvers document
+            # for such columns (NULL_STEP); as the step grows it tends to the distance of w_j to argmin pen_j
+            s = 1.0 / L[j] if L[j] != 0 else NULL_STEP
             us, _ = P.prox_scalar(pen, float(wv[j] - s * g[j]), s, j)
             d[j] = min(abs(wv[j] - u) for u in us)
     elif strategy == "fixpoint" and pen["kind"] in ("L2_1", "WeightedGroupL2", "WeightedL1GroupL2",
@@ -101,7 +106,8 @@ def _fixpoint_block(prob, wv, g):
         for gi, idx in enumerate(grs):
             L = np.linalg.norm(X[:, idx], ord=2) ** 2 / (c * n)
             if L == 0:
-                d[gi] = P.subdiff_dist(pen, wv, g)[gi]
+                u = P.prox_block(pen, wv[idx] - g[idx] * NULL_STEP, NULL_STEP, gi)
+                d[gi] = np.linalg.norm(wv[idx] - u)
                 continue
             u = P.prox_block(pen, wv[idx] - g[idx] / L, 1.0 / L, gi)
             d[gi] = np.linalg.norm(wv[idx] - u)
@@ -112,7 +118,8 @@ def _fixpoint_block(prob, wv, g):
     for j in range(len(W)):
         L = (X[:, j] ** 2).sum() / n
         if L == 0:
-            d[j] = P.subdiff_dist(pen, wv, g)[j]
+            u = P.prox_block(pen, W[j] - G[j] * NULL_STEP, NULL_STEP, j)
+            d[j] = np.linalg.norm(W[j] - u)
             continue
         u = P.prox_block(pen, W[j] - G[j] / L, 1.0 / L, j)
         d[j] = np.linalg.norm(W[j] - u)
